@@ -1,10 +1,10 @@
 SPECIFICATION MCSpec
 CONSTANTS
   MaxSess = 2
-  T = 3
+  T = 4
   Stateless = FALSE
-  MaxSlots = 2
-  MaxParked = 1
+  MaxSlots = 3
+  MaxParked = 2
 INVARIANTS MintOnlyOnCreate DeadStaysDead UserBound NoTimeoutDuringPost StatelessNoIds ClosedAndForgotten TimerDiscipline
 PROPERTIES MintStep AtMostOneSession DeadForever ResAlways
 VIEW MCView
